@@ -564,6 +564,18 @@ class Analysis:
                             self.reads.add(("aux", k, f, how))
 
                     self.analyse(fn, cls, {params[0].arg: {(kind, False)}}, tsink)
+        # modifier items: `CFGBuilder._handle_withitem` consumes the context expression of a `with` item
+        # (`dagger`, `dagger()`, `control(q, …)`, `power(n)`) itself — a fourth consumer of Call / Name nodes
+        for fn in self.methods.get(("CFGBuilder", "_handle_withitem"), []):
+            def msink(k, f, how):
+                if self.kinds.get(k) == "expr":
+                    self.reads.add(("ModifierItem", k, f, how))
+                elif self.kinds.get(k) not in ("stmt", "expr"):
+                    self.reads.add(("aux", k, f, how))
+
+            self.analyse(fn, "CFGBuilder", {}, msink)
+        for k in sorted({k for v, k, _f, _h in self.reads if v == "ModifierItem"}):
+            self.visits.append(("ModifierItem", k, "explicit"))
         tk = {k for v, k, _h in self.visits if v == "AssignTarget"}
         for v, k, f, h in sorted(self.reads):
             if v == "AssignTarget" and k not in tk:   # e.g. Starred, handled inside the Tuple/List case
